@@ -82,6 +82,11 @@ pub const FAILING: &[(&str, &[&str])] = &[
     ("error-in-callback-of-last-transducer", &["(transduce (list 1 2 3) (mapping (lambda (x) (if (= x 2) (car x) x))) (into-last))"]),
     ("error-in-callback-of-nth-transducer", &["(transduce (list 1 2 3) (mapping (lambda (x) (if (= x 1) (car x) x))) (into-nth 2))"]),
     ("host-initiated-call-fails", &["(define (hc52 a b) (+ a (car b)))", "#call hc52"]),
+    // the host passes two arguments: a callee that takes one, three, or at
+    // least three is refused before its body runs
+    ("host-initiated-call-too-many-arguments", &["(define (hc55 a) (+ a 1))", "#call hc55"]),
+    ("host-initiated-call-too-few-arguments", &["(define (hc56 a b c) (+ a b c))", "#call hc56"]),
+    ("host-initiated-call-too-few-for-rest", &["(define (hc57 a b c . more) (+ a b c))", "#call hc57"]),
     ("error-inside-dynamic-wind-with-counter", &["(define (w53 a) (dynamic-wind (lambda () 0) (lambda () (+ a (car a))) (lambda () (wind-out!))))", "(list 1 2 (w53 3))"]),
     ("error-inside-parameterize", &["(define (p54 a) (parameterize ((base-param 'inner)) (+ a (car a))))", "(list 1 (p54 3))"]),
 ];
